@@ -80,7 +80,7 @@ impl Alphabets {
             "u8": self.u8_, "i8": self.i8_, "u16": self.u16_, "i16": self.i16_,
             "u32": self.u32_, "i32": self.i32_, "u64": self.u64_, "i64": self.i64_,
             "Uint24": self.u24, "Int24": self.i24, "float": self.f, "string": self.strings,
-            "seq_len": self.seq_lens, "Tag": TAGS, "flags word": "0, every constant declared in the schema's flags block, their union, all ones", "option": ["None", "Some"], "enum": "all variants",
+            "seq_len": self.seq_lens, "Tag": TAGS, "TupleIndex": TUPLE_INDEX, "flags word": "0, every constant declared in the schema's flags block, their union, all ones", "option": ["None", "Some"], "enum": "all variants",
             "literal #[count(N)] arrays": format!("exactly N elements; for N > {PIN_ABOVE} only elements 0, 1 and N-1 vary, the rest stay default"),
         })
     }
@@ -105,6 +105,10 @@ pub struct TapeDe<'t> {
 }
 
 pub const MAX_DEPTH: usize = 40;
+
+/// TupleIndex alphabet: 0, an index, EMBEDDED_PEAK_TUPLE, INTERMEDIATE_REGION, PRIVATE_POINT_NUMBERS,
+/// peak+intermediate, everything
+pub const TUPLE_INDEX: [u16; 7] = [0, 1, 0x8000, 0x4000, 0x2000, 0xC000, 0xFFFF];
 
 /// tag alphabet: a neutral tag first, then the tags that hand-written readers dispatch on
 pub const TAGS: [&str; 7] = ["aaaa", "size", "ss01", "cv01", "dlng", "slng", "DFLT"];
@@ -188,7 +192,22 @@ impl<'de, 'a, 't> de::Deserializer<'de> for &'a mut TapeDe<'t> {
     }
     scalar!(deserialize_u8, visit_u8, u8_, u8);
     scalar!(deserialize_i8, visit_i8, i8_, i8);
-    scalar!(deserialize_u16, visit_u16, u16_, u16);
+    fn deserialize_u16<V: Visitor<'de>>(self, v: V) -> Result<V::Value, DeErr> {
+        self.cur = None;
+        let nt = self.newtype.take();
+        if let Some(fa) = self.flag_alpha.take() {
+            let x = self.pick(fa);
+            return v.visit_u16(x as u16);
+        }
+        if nt == Some("TupleIndex") {
+            // packed word of the hand-written TupleIndex: index bits and each flag on its own
+            let x = self.pick(&TUPLE_INDEX);
+            return v.visit_u16(x);
+        }
+        let a = self.alpha;
+        let x = self.pick(&a.u16_);
+        v.visit_u16(x)
+    }
     scalar!(deserialize_i16, visit_i16, i16_, i16);
     scalar!(deserialize_u64, visit_u64, u64_, u64);
     scalar!(deserialize_i64, visit_i64, i64_, i64);
